@@ -287,6 +287,26 @@ export async function run(ctx) {
           await judge(ctx, { files: { "entry.ts": text }, settings: { string_formats: [], number_formats: [] } }, `grid:${cn}/${on}${mutual ? "/mutual" : ""}`);
         }
   }
+  // JSDoc blocks whose frame (the blanks around the leading asterisks, the text after them) is made
+  // of every kind of white space and of multi-byte characters; attached and unattached comments
+  {
+    const blanks = [" ", "\t", "\u00a0", "\u3000", "\u2003", "\u2009", "\ufeff", "\u000b", "\u000c", "\u1680", "\u202f", "\u205f", "", "  ", "\u00a0\u00a0"];
+    const texts = ["plain", "\u00e9t\u00e9", "\ud83d\ude00 astral", "\u3000wide", "*", "* / */".replace(" */", ""), "@deprecated \u00a0x"];
+    let k = 0;
+    for (const b of blanks)
+      for (const t of texts)
+        for (const shape of [0, 1, 2, 3]) {
+          k++;
+          if (k % ctx.of !== ctx.shard) continue;
+          const line = (x) => ` *${b}${x}`;
+          const doc = shape === 0 ? `/**\n${line(t)}\n */` : shape === 1 ? `/**${b}${t}${b}*/` : shape === 2 ? `/**\n${b}*${b}${t}\n${b}*${b}\n${line("second " + t)}\n${b}*/` : `/**\r\n${line(t)}\r\n *${b}\r\n */`;
+          const text = shape % 2 === 0
+            ? `${doc}\ntype T = {\n  ${doc.replace(/\n/g, "\n  ")}\n  a: string;\n};\nexport const P = parse.buildParsers<{ X: T }>();\n`
+            : `${doc}\n\nconst unrelated = 1;\ntype T = { a: string };\n${doc}\nexport const P = parse.buildParsers<{ X: T }>();\n`;
+          ctx.count("jsdoc-frame-grid");
+          await judge(ctx, { files: { "entry.ts": text }, settings: { string_formats: [], number_formats: [] } }, `jsdoc-frame:${shape}`);
+        }
+  }
   // two (or three) different recursive types that each go through a semantic operator in ONE build:
   // the helper types the computations introduce share the build's name space
   {
